@@ -1031,10 +1031,13 @@ func (r *Replica) applyLTXFile(ctx context.Context, f *os.File, info *ltx.FileIn
 
 // fillFollowGap attempts to bridge a gap in level 0 files by searching
 // higher compaction levels for a file that covers the missing TXID range.
+// The snapshot level is searched last: once retention has removed every
+// compacted file that connects to the follower's position, a newer snapshot
+// is the only way forward (it is also what a fresh restore would start from).
 func (r *Replica) fillFollowGap(ctx context.Context, f *os.File, afterTXID ltx.TXID, gapMinTXID ltx.TXID, pageSize uint32) (ltx.TXID, error) {
 	currentTXID := afterTXID
 
-	for level := 1; level < SnapshotLevel; level++ {
+	for level := 1; level <= SnapshotLevel; level++ {
 		itr, err := r.Client.LTXFiles(ctx, level, 0, false)
 		if err != nil {
 			return currentTXID, fmt.Errorf("list level %d ltx files: %w", level, err)
